@@ -257,3 +257,95 @@ def lint(chk, units):
                             witness=dict(instantiation=f.qn))
     chk.ok("R-ARCH.lint", "include/bspline", "%d archetype instantiations scanned" % n, key="lint")
     return n
+
+
+# ------------------------------------------------------------------------------------------------
+# R-ARCH.proxy: expression-template scalars
+# ------------------------------------------------------------------------------------------------
+PROXY = "vt::ExprX"
+
+
+def proxy_free(chk, unit_name="archx_off"):
+    """The documented requirements ask for the four arithmetic operators, not for operators that RETURN the scalar type:
+    multiprecision and rational types commonly return expression proxies that refer to their operands and are evaluated
+    when converted to the scalar (boost::multiprecision number<.., et_on>, GMP's mpq_class). Library code therefore has to
+    name the scalar type wherever an arithmetic result outlives its full expression."""
+    from . import facts as F
+    from .facts import walk
+    rule = "R-ARCH.proxy"
+    chk.rule(rule, "instantiated with a scalar whose operators return expression proxies (vt::ArchX, drivers/archx.h) no "
+                   "variable, data member, parameter or return value of library code has the proxy type (`auto x = a * b` "
+                   "would keep a proxy that refers to dead temporaries; `T x = a * b` evaluates it)")
+    try:
+        u = F.load(unit_name)
+    except F.ExtractError as ex:
+        m = None
+        for ln in ex.stderr.splitlines():
+            m = re.match(r"(.+?):(\d+):(\d+): error: (.*)$", ln)
+            if m and C.in_repo(os.path.abspath(m.group(1))):
+                break
+            m = None
+        if m is None:
+            raise
+        chk.bad(rule, "%s:%s" % (C.rel(os.path.abspath(m.group(1))), m.group(2)),
+                "(template instantiated with vt::ArchX)", "compile-error:" + m.group(4)[:80],
+                "library code does not compile for a scalar type whose operators return expression proxies: " + m.group(4),
+                witness=dict(unit=unit_name))
+        return 0
+    chk.units.append(unit_name)
+    n = 0
+    seen = set()
+    for f in u.funcs:
+        if f.dependent or not f.in_lib():
+            continue
+        n += 1
+        d = f.decl
+        sites = []
+        if PROXY in d.get("rtype", ""):
+            sites.append((f.where(), "returns the proxy type %s" % d["rtype"][:60]))
+        for p in d.get("params", ()):
+            if PROXY in p["type"]:
+                sites.append((f.where(), "parameter '%s' has the proxy type (a template parameter was deduced as the proxy)"
+                              % p["name"]))
+        for x in f.all_nodes():
+            if x["k"] == "VarDecl" and PROXY in u.types[x["t"]]:
+                sites.append((f.loc(x), "variable '%s' has the proxy type %s" % (x.get("n"), u.types[x["t"]][:50])))
+        for where, what in sites:
+            key = (where, what)
+            if key in seen:
+                continue
+            seen.add(key)
+            chk.bad(rule, where, f.pqn, "proxy:" + what[:40],
+                    "%s: for an expression-template scalar this keeps a proxy that refers to temporaries which are destroyed at "
+                    "the end of the full expression (declare the scalar type instead of auto)" % what,
+                    witness=dict(instantiation=f.qn, unit=u.name))
+    for dd in u.decls.values():
+        if dd["k"] == "rec" and C.in_lib(dd.get("file", "") or dd.get("pfile", "")):
+            for fd in dd.get("fields", ()):
+                if PROXY in fd["type"]:
+                    key = (dd.get("qn"), fd["name"])
+                    if key in seen:
+                        continue
+                    seen.add(key)
+                    chk.bad(rule, "%s:%s" % (C.rel(dd.get("pfile") or dd.get("file", "")), dd.get("pline") or dd.get("line", 0)),
+                            dd.get("pqn") or dd.get("qn", "?"), "proxy-member:" + fd["name"],
+                            "data member '%s' of %s has the proxy type: the object stores an unevaluated expression" % (
+                                fd["name"], (dd.get("qn") or "?")[:80]), witness=dict(unit=u.name))
+    if not chk.rules[rule]["violations"]:
+        chk.ok(rule, "include/bspline", "%d instantiated functions: arithmetic results are always named with the scalar type" % n,
+               key="proxy")
+    return n
+
+
+def proxy_control(chk):
+    """Positive control: drivers/controls_archx.cpp keeps an arithmetic result in `auto`; the type test must see it."""
+    from . import facts as F
+    u = F.load("controls_archx")
+    hit = False
+    for f in u.funcs:
+        if f.dependent or "vt_control" not in f.qn:
+            continue
+        for x in f.all_nodes():
+            if x["k"] == "VarDecl" and PROXY in u.types[x["t"]] and x.get("n") == "kept":
+                hit = True
+    chk.control("R-ARCH.proxy", "auto-keeps-a-proxy", hit)
